@@ -131,6 +131,10 @@ type Try struct {
 type Return struct{ E Expr }
 type Comment struct{ S string }
 
+// FailStmt is an action (printed verbatim between the delimiters) that the
+// reference expects to fail with the given class when it is executed.
+type FailStmt struct{ Src, Class string }
+
 // Fail is an action that fails when executed: {{ failfn() }} style helpers are
 // ordinary Calls; Fail is kept for readability in generators.
 
@@ -146,6 +150,7 @@ func (*Include) isStmt()      {}
 func (*Try) isStmt()          {}
 func (*Return) isStmt()       {}
 func (*Comment) isStmt()      {}
+func (*FailStmt) isStmt()     {}
 
 // File is one template of a program.
 type File struct {
@@ -277,6 +282,19 @@ func (p *Printer) stmt(s Stmt) {
 		p.w(s.S)
 	case *Comment:
 		p.w("{*" + s.S + "*}")
+	case *FailStmt:
+		// "\x00" in Src marks the end of the opening action of a construct with a body:
+		// the expected position is the opening action's line span only
+		if i := strings.IndexByte(s.Src, 0); i >= 0 {
+			start := p.line
+			p.w(p.L + p.Pad + s.Src[:i])
+			p.pos[s] = Pos{File: p.file, Line: start, End: p.line}
+			p.w(s.Src[i+1:] + p.Pad + p.R)
+			break
+		}
+		done := p.open(s)
+		p.w(s.Src)
+		done()
 	case *Emit:
 		done := p.open(s)
 		src := p.Expr(s.E)
